@@ -1,3 +1,67 @@
-//! C18 (stub: no cases yet)
+//! C18, the part that needs no generated program: Parser::skip / Parser::skip_back
+//! (konst/src/parsing/non_parsing_methods.rs), the two methods `parser_method!` advances the
+//! parser with, for EVERY byte count incl. counts inside a multi-byte char (where they
+//! round) and beyond the end.  The macro invocations themselves are produced by
+//! lib/gen/c18.py (group gen:c18).
+//!   c18.skip / c18.skip_back   input n off dir -> rem=<view>;off=..;dir=..
 use crate::common::*;
-pub fn run(_cfg: &Cfg, _out: &mut Out) {}
+use konst::parsing::ParseDirection;
+use konst::Parser;
+
+fn show_dir(d: ParseDirection) -> &'static str {
+    match d {
+        ParseDirection::FromStart => "S",
+        ParseDirection::FromEnd => "E",
+        _ => "B",
+    }
+}
+fn show_parser(input: &str, p: Parser<'_>) -> String {
+    format!("rem={};off={};dir={}", view_str(input, p.remainder()), p.start_offset(), show_dir(p.parse_direction()))
+}
+
+fn one(input: &str, n: usize, st: usize, out: &mut Out) {
+    let (off, dir) = if st == 0 { (0usize, "S") } else { (5usize, "E") };
+    let mk = || {
+        let p = Parser::with_start_offset(input, off);
+        if st == 0 { p } else { p.skip_back(0) }
+    };
+    let args = format!("{} {} {} {}", hex(input.as_bytes()), n, off, dir);
+    let len = input.len();
+    // std oracle: the cut moves to the next (skip) / previous (skip_back) char boundary
+    let mut up = n.min(len);
+    while !input.is_char_boundary(up) {
+        up += 1;
+    }
+    let mut down = len.saturating_sub(n);
+    while !input.is_char_boundary(down) {
+        down -= 1;
+    }
+    let inside = |i: usize| i < len && !input.is_char_boundary(i);
+    let imp = catch(|| show_parser(input, mk().skip(n)));
+    let std_ = format!("rem={};off={};dir=S", view_str(input, &input[up..]), off + up);
+    let tag = if inside(n) { "round" } else if n > len { "beyond" } else if n == 0 || n == len { "-" } else { "cut" };
+    out.line("c18.skip", &args, &imp, &std_, tag);
+    let imp = catch(|| show_parser(input, mk().skip_back(n)));
+    let std_ = format!("rem={};off={};dir=E", view_str(input, &input[..down]), off);
+    let tag = if n <= len && inside(len - n) { "round" } else if n > len { "beyond" } else if n == 0 || n == len { "-" } else { "cut" };
+    out.line("c18.skip_back", &args, &imp, &std_, tag);
+}
+
+pub fn run(cfg: &Cfg, out: &mut Out) {
+    let alpha = ['a', 'é', '日', '\u{1F9E0}'];
+    let l = if cfg.thorough { 5 } else { 4 };
+    for s in all_strings(&alpha, l) {
+        for n in 0..=s.len() + 2 {
+            for st in 0..2 {
+                one(&s, n, st, out);
+            }
+        }
+    }
+    let mut rng = Rng::new(cfg.seed);
+    for _ in 0..(if cfg.thorough { 4000 } else { 500 }) {
+        let k = 5 + rng.below(12);
+        let s: String = (0..k).map(|_| *rng.pick(&alpha[..])).collect();
+        let n = rng.below(s.len() as u64 + 3) as usize;
+        one(&s, n, rng.below(2) as usize, out);
+    }
+}
